@@ -258,6 +258,17 @@ func init() {
 					}
 				}
 				if !internal {
+					// a peer's message is handed to the WAL (buffered: it is flushed before the validator signs,
+					// C04.R4) before it is acted on — acting first can produce a lock and a signature that the
+					// log of a crashed node does not explain
+					if regexp.MustCompile(`^select#\d+$`).MatchString(val) {
+						rx := regexp.MustCompile(`\.wal\.Write(Sync)?\((` + q(src) + `|` + q(val) + `)\)$`)
+						okW, _ := mustPrecede(f, call, func(in ssa.Instruction) bool {
+							cc, isCall := in.(ssa.CallInstruction)
+							return isCall && rx.MatchString(w.callStr(cc))
+						})
+						c.Check(okW, k.key(f, "handle a peer's message"), w.ipos(call), "wal.Write(msg) precedes handleMsg(msg)", "a peer's message is acted on before it is written to the WAL")
+					}
 					continue
 				}
 				n++
